@@ -139,19 +139,22 @@ def oracle_shared(sc):
     return None, []
 
 
-def shared_as_cases(sc):
-    """The log steps of a shared-logger scenario as SimpleLogger cases for the model comparison (the model's line for a
-    record does not depend on what was logged before or on other SimpleLoggers over the same log.Logger)."""
-    if sc["initial_prefix"]:
-        return []
-    return [{"kind": "simple", "thr": st["thr"], "lvl": st.get("lvl", 0), "msg": st["msg"], "args": st.get("args") or [],
-             "simple": (st.get("out") or [None])[0], "scenario": sc["scenario"]}
-            for st in sc["steps"] if st["op"] == "log" and len(st.get("out") or []) <= 1]
-
-
-def model_mismatches(cases):
-    """Evaluate the Coq model on the same cases inside Coq; return indexes that differ."""
-    simple, slog, noop = [], [], []
+def model_mismatches(cases, shared=()):
+    """Evaluate the Coq model on the same cases inside Coq; return indexes that differ (cases), the raw output, and the
+    indexes of the shared-logger scenarios whose per-step output differs from the model's sh_run."""
+    simple, slog, noop, shr = [], [], [], []
+    for i, sc in enumerate(shared):
+        ops, obs = [], []
+        for st in sc["steps"]:
+            if st["op"] == "new":
+                ops.append("ShNew (%d)%%Z" % st["thr"])
+                obs.append("None")
+            else:
+                ops.append("ShLog %d%%nat (level_of_nat %d%%nat) %s %s" % (st["id"], st.get("lvl", 0), cq(st["msg"]),
+                                                                       coq_list([cq(a) for a in st.get("args") or []])))
+                out = st.get("out") or []
+                obs.append("(Some %s)" % cq("\n".join(out)) if out else "None")
+        shr.append("(%d%%nat, (%s, %s, %s))" % (i, cq(sc["initial_prefix"]), coq_list(ops), coq_list(obs)))
     for i, c in enumerate(cases):
         args = coq_list([cq(a) for a in c["args"]])
         if c["kind"] == "simple":
@@ -182,17 +185,24 @@ Definition bad_noop := map fst (filter (fun c => let '(_, l) := c in
   match noop_emit (level_of_nat l) "m" ["k"; "v"] with None => false | Some _ => true end) cases_noop).
 Definition MISMATCH := Eval vm_compute in (bad_simple ++ bad_slog ++ bad_noop)%%list.
 Print MISMATCH.
-""" % (coq_list(simple) if simple else "[]", coq_list(slog) if slog else "[]", coq_list(noop) if noop else "[]")
+Definition cases_shared : list (nat * (string * list shop * list (option string))) := %s.
+Definition SHAREDBAD := Eval vm_compute in map fst (filter (fun c => let '(_, (p0, ops, obs)) := c in
+  negb (opt_strings_eqb (sh_run simple_ctor_captures_prefix (sh_init p0) ops) obs)) cases_shared).
+Print SHAREDBAD.
+""" % (coq_list(simple) if simple else "[]", coq_list(slog) if slog else "[]", coq_list(noop) if noop else "[]",
+       coq_list(shr) if shr else "[]")
     rc, out = vlib.coq_eval(PROJ, "c18_cases", v)
     if rc != 0:
-        return None, out
+        return None, out, None
     import re
-    m = re.search(r"MISMATCH\s*=\s*(\[[^\]]*\])", out.replace("\n", " "))
-    if not m:
-        return None, out
-    body = m.group(1).strip("[]").strip()
-    idx = [int(x.replace("%nat", "").strip()) for x in body.split(";") if x.strip()] if body else []
-    return idx, out
+    res = []
+    for name in ("MISMATCH", "SHAREDBAD"):
+        m = re.search(name + r"\s*=\s*(\[[^\]]*\])", out.replace("\n", " "))
+        if not m:
+            return None, out, None
+        body = m.group(1).strip("[]").strip()
+        res.append([int(x.replace("%nat", "").strip()) for x in body.split(";") if x.strip()] if body else [])
+    return res[0], out, res[1]
 
 
 def run_matrix(binp):
@@ -248,22 +258,24 @@ def run(ctx):
     shared = run_lines(binp, ["shared", str(ctx.seed)])
     if len(shared) < 10:
         raise RuntimeError("logh shared printed %d scenarios" % len(shared))
-    shared_cases = []
     for sc in shared:
         k, why = oracle_shared(sc)
         if why:
             failures.append(shared_failure(sc, k, why))
-        shared_cases += shared_as_cases(sc)
     matrix_cases = len(cases)
-    # model comparison: the matrix, the hostile cases inside the model's domain with every level enabled, the shared-logger steps
-    cases = cases + [c for c in hostile if not c.get("no_model") and c["thr"] == -8] + shared_cases
+    # model comparison: the matrix, the hostile cases inside the model's domain with every level enabled; the shared-logger
+    # scenarios are run as a whole through the model's sh_run (state: the log.Logger's prefix and the wrapped loggers)
+    cases = cases + [c for c in hostile if not c.get("no_model") and c["thr"] == -8]
     idx = None
     if res.get("ok") or os.path.exists(os.path.join(vlib.coq_dir(PROJ), "theories", "Logger.vo")):
-        idx, mout = model_mismatches(cases)
+        idx, mout, sidx = model_mismatches(cases, shared)
         if idx is None:
             mismatches.append({"error": "model evaluation failed", "detail": mout[-1500:]})
         else:
             mismatches += [{"case": cases[i], "what": "Coq model's emit differs from the implementation's output"} for i in idx]
+            mismatches += [{"case": {"kind": "shared", "scenario": shared[i]["scenario"], "seed": shared[i]["seed"]},
+                            "what": "Coq model of several SimpleLoggers over one log.Logger (sh_run) writes different lines than the implementation"}
+                           for i in sidx]
     # concurrent labelling: every line's label must be the level it was logged at
     rounds = [(8, 4000), (16, 1500), (3, 6000)] if ctx.tier == "quick" else [(8, 40000), (16, 20000), (32, 10000), (2, 100000), (5, 50000)]
     stress = []
@@ -311,7 +323,7 @@ def run(ctx):
         "hostile_later_records_seen": sum(1 for c in hostile if c["after_emitted"]),
         "shared_scenarios": len(shared),
         "shared_log_steps": sum(1 for sc in shared for st in sc["steps"] if st["op"] == "log"),
-        "model_cases_in_coq": len(cases),
+        "model_cases_in_coq": len(cases) + sum(1 for sc in shared for st in sc["steps"]),
         "partial_runtime": "that the Go runtime interleaves SetPrefix/Output as the labelled transition system assumes is observed by the stress run, not proved",
     })
     vlib.write_evidence(ctx, cov, assumptions=[
